@@ -1,0 +1,44 @@
+//go:build verif
+// +build verif
+
+package frame
+
+// Machine-checked contracts for gvc (see /verif/DESIGN.md). Comment-only file:
+// no executable code, excluded from every normal build.
+
+//@ spec thriftbin.smt2
+
+//@ contract (*Reader).readFastPath
+//@   props C13 C16
+//@   nopanic
+//@   requires r != nil && l >= 0 && l < 10485760 && rpos(r.r) >= 0 && rpos(r.r) <= 4611686018427387904
+//@   let p0 = rpos(r.r)
+//@   modifies rpos(r.r)
+//@   alloc[C13] n <= 10485760
+//@   ensures(len) err == nil ==> len(result) == l
+//@   ensures(bytes) err == nil ==> forall(k, 0, l, result[k] == rin(r.r)[p0 + k])
+//@   ensures(pos) err == nil ==> rpos(r.r) == p0 + l
+//@   ensures(mono) rpos(r.r) >= p0
+
+//@ contract (*Reader).Read
+//@   props C13 C16
+//@   nopanic
+//@   requires r != nil && rpos(r.r) >= 0 && rpos(r.r) <= 4611686018427387904 && _fastPathFrameSize == 10485760
+//@   let p0 = rpos(r.r)
+//@   modifies r.buff, rpos(r.r)
+//@   alloc[C13] n <= 10485760
+//@   ensures(len) err == nil ==> len(result) == int64(uint32(be32at(rin(r.r), p0)))
+//@   ensures(bytes) err == nil ==> forall(k, 0, len(result), result[k] == rin(r.r)[p0 + 4 + k])
+//@   ensures(pos) err == nil ==> rpos(r.r) == p0 + 4 + len(result)
+//@   ensures(mono) rpos(r.r) >= p0
+
+//@ contract (*Writer).Write
+//@   props C16
+//@   nopanic
+//@   requires w != nil && wlen(w.w) >= 0 && wlen(w.w) <= 4611686018427387904 && len(b) <= 4294967295
+//@   let q0 = wlen(w.w)
+//@   modifies w.buff, wout(w.w), wlen(w.w)
+//@   ensures(len) err == nil ==> wlen(w.w) == q0 + 4 + len(b)
+//@   ensures(hdr) err == nil ==> int64(uint32(be32at(wout(w.w), q0))) == len(b)
+//@   ensures(payload) err == nil ==> forall(k, 0, len(b), wout(w.w)[q0 + 4 + k] == b[k])
+//@   ensures(prefix) forall(j, 0, q0, wout(w.w)[j] == old(wout(w.w))[j])
